@@ -7,7 +7,7 @@ CLAIMS = {
         "text": "Decides, for every path of _Packet.decode at once, that a decoded frame is only returned after a full-width "
                 "keyed-MD5 equality whose operands partition the packet, that the plaintext derives only from signed bytes and "
                 "that rejections are ProtocolErrors (explicit raises, and the may-raise analysis with the packet as taint source: no other "
-                "class escapes decode). Structural necessary conditions of the property; collision resistance is trusted.",
+                "class escapes decode). Structural necessary conditions of the property; collision resistance is trusted. Security.sign hashes the whole of its argument, and LAN._read returns nothing around the verifying decoder.",
         "note": TRUST + "keyed MD5 changes when any covered bit changes",
         "technique": "value-flow terms + path-condition dominance on the ast (static analysis)",
     },
@@ -40,7 +40,7 @@ CLAIMS = {
         "text": "For every path through the capability record loop at once: the cursor advances by exactly 3+size on each back edge "
                 "(affine forms over value-flow terms), every read stays inside its record, the only loop-carried values are the cursor "
                 "and write-only accumulators (the result dict), merge is an in-order dict.update (skipped at most when the other page is empty) and get_capabilities pages/merges/updates in the "
-                "right order; the dict a response fills is not shared with class-level or module-level state. Together: parse(list) = fold of parse(record), independent of the split point.",
+                "right order; the dict a response fills is not shared with class-level or module-level state. Together: parse(list) = fold of parse(record), independent of the split point. No memoised function hands out response objects and nothing a getter reads is derived from the dict at construction time only.",
         "note": TRUST + "dict.update semantics",
         "technique": "cursor-advance / loop-carried-state analysis on value-flow terms (static analysis)",
     },
@@ -49,7 +49,7 @@ CLAIMS = {
                 "exemption is exactly the PropertiesResponse class selected by ids 0xB0/0xB1, checksum/CRC coverage ranges and the "
                 "accept condition (normal completion implies CRC-8 or additive match) are read off value-flow terms, and only "
                 "normally constructed responses can reach the valid list, _update_state, `supported` and `online`; the may-raise analysis "
-                "shows only the two validation exceptions caught by the frame loop escape Response.construct for any frame bytes.",
+                "shows only the two validation exceptions caught by the frame loop escape Response.construct for any frame bytes. Device._send_command returns the frames of LAN.send unmodified, and C14's containment obligations are imported (a rejected frame is dropped, nothing escapes).",
         "note": TRUST + "no arithmetic claim about the accept-either coincidence (1 in 255), stated in DESIGN.md",
         "technique": "must-pass-through + value-flow range/provenance analysis (static analysis)",
     },
@@ -59,7 +59,7 @@ CLAIMS = {
                 "40-byte header, AES-ECB(PKCS7(command)), MD5(everything before ‖ key)); the decoder's ranges, byte order and inverse "
                 "transform agree with it; key/mode/block pairing by constant folding; every emitted byte is interval-bounded; no packet byte is "
                 "left in a buffer the next call reuses (held-buffer mutation on value-flow terms). Holds "
-                "for all frames, ids and timestamps at once because lengths and values are symbolic.",
+                "for all frames, ids and timestamps at once because lengths and values are symbolic. What LAN.send writes on a V2 connection is that encoding of the frame it was given, handed unmodified to the transport, and what it returns went through the decoder (pipeline connectivity).",
         "note": TRUST + "AES-128-ECB / PKCS7 / MD5 implementations",
         "technique": "byte-sequence layout + affine length + interval abstract domains over value-flow terms (static analysis)",
     },
@@ -68,7 +68,7 @@ CLAIMS = {
                 "residues of (len+2) mod 16; declared size = actual − 8; tag over header ‖ plaintext on both sides; decoder ranges, pad "
                 "nibble, counter width agree; the payload strip is decided for pad = 0 and pad > 0 (x[a:-0] is empty); every decoded "
                 "return is dominated by the full-width SHA-256 equality and rejections are ProtocolErrors; the unauthenticated type nibble "
-                "selects the handshake branch only while a handshake is pending (flag set before the write, lowered by a finally / catch-all on every exit, named or not - also through extracted helpers).",
+                "selects the handshake branch only while a handshake is pending (flag set before the write, lowered by a finally / catch-all on every exit, named or not - also through extracted helpers). write() hands the encoding selected by the packet type, unmodified, to the transport.",
         "note": TRUST + "SHA-256 / AES-CBC implementations; Python slicing semantics",
         "technique": "byte-sequence layout + congruence + interval domains, path-condition dominance (static analysis)",
     },
@@ -76,7 +76,7 @@ CLAIMS = {
         "text": "Segmentation independence is reduced to the inductive invariant of data_received (buffer = undelivered suffix, no "
                 "complete leading packet) and its premises are decided on value-flow terms: framing constant 8 agrees with both "
                 "encoders' affine lengths, tight `len(view) >= N` guard, delivered/kept partition at one N, append-not-replace, "
-                "untouched buffer on early returns, extraction loop ending only on an empty buffer, one FIFO put per packet.",
+                "untouched buffer on early returns, extraction loop ending only on an empty buffer, one FIFO put per packet. The reassembly buffer is per-connection and written only by the initialisers and the receive callback.",
         "note": TRUST + "asyncio.Queue FIFO; bytearray.find / slicing semantics; the function is sequential, so no schedule needs exploring",
         "technique": "inductive-invariant premises checked on value-flow terms + affine lengths (static analysis)",
     },
@@ -85,7 +85,7 @@ CLAIMS = {
                 "(affine), 0xAC, documented frame type per class (constructor resolution), body = data ‖ id ‖ crc8(data ‖ id), checksum "
                 "over [1:-1]; every tobytes override ends in the base framing; counter +1 & 0xFF; CRC table = generated Dallas/Maxim "
                 "table = vendor Lua table; property command count/record layouts; length byte fits for the largest command; one counter "
-                "shared by all command classes; tobytes mutates no buffer held by the object (same command serialises identically).",
+                "shared by all command classes; tobytes mutates no buffer held by the object (same command serialises identically). A command handed to the send chain is serialised exactly once.",
         "note": TRUST + "vendor Lua table read lexically",
         "technique": "byte-sequence layout domain + constructor resolution + constant folding (static analysis)",
     },
@@ -94,7 +94,7 @@ CLAIMS = {
                 "16 settable fields at once (guard regions for the set-point and half-degree flag are abstract elements); the vendor "
                 "reference decode applied to the abstract 24-byte body returns every source field (left inverse ⇒ distinct states give "
                 "distinct bodies); no bit collisions, no lossy masks, every byte ≤ 255; the def-use chain setter → attribute → apply → command "
-                "attribute passes every requested value unchanged. All 62 set-points × modes × flags are one abstract state.",
+                "attribute passes every requested value unchanged. All 62 set-points × modes × flags are one abstract state. The CLI's ordering obligation (nothing refreshes the device between assignment and apply, C20.e) is imported.",
         "note": TRUST + "transcription of the vendor layout rows (each cites its Lua line, constants re-read from the Lua)",
         "technique": "abstract interpretation in a bit-field/interval/affine domain with trace partitioning (static analysis)",
     },
@@ -103,7 +103,7 @@ CLAIMS = {
                 "field a source over its full raw domain, don't-care bits free, symbolic length >= 16); in every guard region each of the 19 "
                 "attributes equals the reported field, optional fields are None exactly where the length does not cover them; "
                 "_parse_temperature's decision tree is checked leaf by leaf in a linear-form domain with the trunc relation (None iff "
-                "0xFF, within one degree, exact tenths in Celsius); _update_state stores every attribute on every way through its state branch, converts the custom fan speed inside a handler for the enum's ValueError and, with the getters, maps each attribute unchanged.",
+                "0xFF, within one degree, exact tenths in Celsius); _update_state stores every attribute on every way through its state branch, converts the custom fan speed inside a handler for the enum's ValueError and, with the getters, maps each attribute unchanged. The constructor hands every payload of reportable length to _parse, and the checksum formula the validator uses (C12.a) is imported.",
         "note": TRUST + "vendor layout rows (Lua lines cited); exact rationals stand for floats of halves/tenths",
         "technique": "abstract interpretation in a bit-field/linear-form domain with trace partitioning + def-use mapping (static analysis)",
     },
@@ -113,7 +113,7 @@ CLAIMS = {
                 "a response, R timeouts ⇒ TimeoutError after exactly R transmissions, every failure exit disconnects first and leaves as "
                 "timeout/protocol error; plus must-pass-through reconnect in send, _disconnect/_connect/_alive/alive/write facts from "
                 "value-flow terms (the wait on the receive queue has a timeout that no handler below the retry loop swallows; no self._protocol.<x> where the path condition, short-circuit operands or every caller's guard leave it possibly None) and the may-raise analysis with environment raisers for connect failures and Device._send_command; the "
-                "reassembly premises of C04 (every response that arrives is delivered) and the session discipline of C07 (re-authentication on V3) are re-run as premises.",
+                "reassembly premises of C04 (every response that arrives is delivered) and the session discipline of C07 (re-authentication on V3) are re-run as premises. A handshake is offered only on a connection found alive and V3 or on a fresh one.",
         "note": TRUST + "timing relative to the 2 s read timeout and success of the following exchange on a real socket are not decided",
         "technique": "conditional-constant exploration of retry-loop automata + must-pass-through + may-raise effects (static analysis)",
     },
@@ -122,7 +122,7 @@ CLAIMS = {
                 "bind it to the configured key; key/expiry are written only by __init__ and authenticate, the stored key is the verified "
                 "return value, no session attribute is stored between the reply read and the proof, every raising path leaves them untouched; LAN credential stores are reached only after a successful "
                 "handshake for every budget/outcome sequence (loop exploration); the only write is write(token, HANDSHAKE_REQUEST) after "
-                "the flush; reply-caused failures surface as AuthenticationError (may-raise analysis); expiry = now + 12 h; the premises of the V3 codec the reply travels through (C05) are imported.",
+                "the flush; reply-caused failures surface as AuthenticationError (may-raise analysis); expiry = now + 12 h; the premises of the V3 codec the reply travels through (C05) are imported. _flush empties the queue (loop until empty); the credentials offered are the given ones as bytes or the stored ones; the premises of reassembly (C04) and session discipline (C07) are imported.",
         "note": TRUST + "that both sides derive the same key (XOR/AES algebra) is trusted",
         "technique": "path-condition dominance + who-writes + retry-loop exploration + may-raise effects (static analysis)",
     },
@@ -130,7 +130,7 @@ CLAIMS = {
         "text": "Typestate decided as invariants each call re-establishes: the data write in LAN.send is dominated by not-V3 / authenticated "
                 "/ completed authenticate(); single data-write and handshake-write sites; key guard in the encoder; session state is "
                 "per-instance and the factory constructs a fresh protocol per connection; counter' = (counter+1) mod 2^k, k ≤ 16, serialised as 2 bytes big-endian by both V3 encoders (layout domain); "
-                "`authenticated` and `_alive` lifetime predicates have the right polarity and constants (12 h).",
+                "`authenticated` and `_alive` lifetime predicates have the right polarity and constants (12 h). An assert is not taken for the handshake; C06's who-writes / proof obligations are imported.",
         "note": TRUST + "wall-clock behaviour is not decided; histories need no enumeration because each clause is a per-call invariant",
         "technique": "must-pass-through typestate + who-may-call + value-flow/affine-mod reasoning (static analysis)",
     },
@@ -148,7 +148,7 @@ CLAIMS = {
                 "APP_KEY); bodies carry the stored sessionId and stamp; the login password derivation of both clouds (SmartHome: salted with the login key of the selected server); get_token returns token/key of the "
                 "very element compared equal to the requested udpid, else CloudError; _post_request explored for budgets 1..3 with the HTTP "
                 "client as oracle (attempts ≤ R, every exceptional exit a CloudError); both byte orders tried with the credentials fetched "
-                "for that order's udpid; the cloud client is cached for reuse only after login() completed.",
+                "for that order's udpid; the cloud client is cached for reuse only after login() completed. Every network failure of Device.authenticate is an AuthenticationError (C06.d), so both byte orders are tried.",
         "note": TRUST + "acceptance by the real cloud service; JSON/KeyError on malformed server answers are outside the property",
         "technique": "value-flow provenance + retry-loop exploration (static analysis)",
     },
@@ -157,7 +157,7 @@ CLAIMS = {
                 "network call, conversion is reached only for existing writable properties, the stored value's decision tree has exactly the "
                 "documented leaves (enum by value / raw int only for FanSpeed / by upper-cased name, bool via capitalised literal, number via "
                 "the default's type), every writable property has a non-None convertible default, and refresh → pop display → toggle-if-"
-                "different → setattr → apply-if-pending ordering holds; manual connect uses port 6444.",
+                "different → setattr → apply-if-pending ordering holds; manual connect uses port 6444. No handler or exiting finally between _control and the interpreter replaces its exit status.",
         "note": TRUST + "argparse and README prose beyond these clauses; clause (d) is partly idiom-pinned (.upper() / .capitalize()), stated in DESIGN.md",
         "technique": "may/must event (dominance) analysis + value-flow decision-tree extraction + inventory (static analysis)",
     },
@@ -168,7 +168,7 @@ CLAIMS = {
                 "value encodings (ids and lengths re-read from the Lua); the response parser advances 4+len per record; breeze exclusivity "
                 "and BREEZE_CONTROL precedence from the gated terms; response handlers store backing fields, never the recording setters; "
                 "BreezeMode members carry the vendor's values (bounds re-read from the Lua); capability record id, reader name, response property and the PropertyId marked supported "
-                "agree along each of the 7 chains; the 5 property read-backs store whenever the property is present (not when truthy).",
+                "agree along each of the 7 chains; the 5 property read-backs store whenever the property is present (not when truthy). Only apply takes ids out of the pending set; a properties response owns its value dict.",
         "note": TRUST + "vendor value encodings (Lua lines cited); read-back equality through a live device is not decided",
         "technique": "def-use chain + must/may event analysis + layout domain + cursor-advance analysis (static analysis)",
     },
